@@ -76,6 +76,8 @@ def gen_case(rng: random.Random, tier: str):
     if n * size > (40_000_000 if big else 8_000_000):
         size = 100
     c = _mk(rng, n, size, late=rng.random() < 0.2, low=rng.random() < 0.15)
+    if n <= 300 and rng.random() < 0.2:
+        c['slow'] = rng.choice([0.0005, 0.002])      # a slow handler in the parent: the pipe fills, the result overtakes the logs
     if rng.random() < 0.3 and n:
         c['sizes'] = [rng.choice([0, 10, 100, 3000, 70000 if n <= 60 else 100]) for _ in range(8)]
     return c
@@ -114,6 +116,12 @@ def expected(case):
     return [i for i in range(n_total(case)) if passes(case, i)]
 
 
+def vol_class(case):
+    """class for the hang-bound median: variant x order of magnitude of the bytes logged"""
+    vol = n_total(case) * (case['size'] if not case.get('sizes') else max(case['sizes'])) + 200 * n_total(case)
+    return f"{case['via']}:{len(str(vol))}{':slow' if case.get('slow') else ''}"
+
+
 def case_class(case):
     vol = n_total(case) * (case['size'] if not case.get('sizes') else sum(case['sizes']) // len(case['sizes']))
     return (f"{case['via']}:{'small' if vol < 30000 else 'beyond-pipe'}{'-lowlevel' if case.get('low') else ''}:"
@@ -134,7 +142,7 @@ def monitor(case, res):
     got = res.get('handled') or []
     if not res.get('joined'):
         mon.append(dict(prop='C20', rule='hang',
-                        detail=f'{case["first"]}() did not return within {HANG_BOUND}s (child exitcode {res.get("exitcode")}); '
+                        detail=f'{case["first"]}() did not return within {scen_proc.hang_bound(case)}s (child exitcode {res.get("exitcode")}); '
                                f'{len(got)}/{len(exp)} records handled; case class {cls}'))
     seen = set()
     dups = [i for i in got if i in seen or seen.add(i)]
@@ -159,7 +167,7 @@ def monitor(case, res):
 
 
 def run_case(case):
-    res = scen_proc.run_inner(os.path.abspath(__file__), case, outer_bound=HANG_BOUND * 1.5 + 90)
+    res = scen_proc.run_inner(os.path.abspath(__file__), case, outer_bound=scen_proc.hang_bound(case) * 1.5 + 90)
     if res.get('infra'):
         res['infra_error'] = res['infra']
         res.setdefault('monitors', [])
@@ -291,6 +299,8 @@ def _inner(case):
         def emit(self, record):
             if record.name not in NAMES:
                 return      # mpservice's own records (servlet start-up etc.)
+            if case.get('slow'):
+                time.sleep(case['slow'])
             try:
                 handled.append(int(str(record.args[0]) if record.args else record.getMessage().split('|')[0]))
             except Exception:
